@@ -36,6 +36,9 @@ func main() {
 	disk := fs.Uint64("disk", 20000, "disk size in blocks")
 	dumpEach := fs.Int("dumpeach", 50, "dump every n steps")
 	prop := fs.String("prop", "", "probes: property filter")
+	delAll := fs.Bool("deleteall", false, "finish each segment by deleting everything")
+	disks := fs.String("disks", "", "comma separated disk sizes cycled over segments (overrides -disk)")
+	snapEach := fs.Int("snapeach", 0, "structural snapshot every n steps (0 = only at the end)")
 	fs.Parse(os.Args[2:])
 	if os.Getenv("VERIF_DEBUG_LEAK") != "" {
 		drv.AfterExec = func(c *drv.Call) {
@@ -51,9 +54,21 @@ func main() {
 			panic(err)
 		}
 		profs := strings.Split(*profile, ",")
+		var dsz []uint64
+		for _, x := range strings.Split(*disks, ",") {
+			if x != "" {
+				var v uint64
+				fmt.Sscan(x, &v)
+				dsz = append(dsz, v)
+			}
+		}
 		for i := 0; i < *nseg; i++ {
-			cfg := drv.SeqCfg{Seed: *seed*1000 + i, Steps: *steps, DiskSz: *disk, Unstable: i%3 != 2,
-				Profile: profs[i%len(profs)], Avoid: avoidSet(*avoid), DumpEach: *dumpEach, Restarts: true}
+			if len(dsz) > 0 {
+				*disk = dsz[i%len(dsz)]
+			}
+			cfg := drv.SeqCfg{Seed: *seed*1000 + i, Steps: *steps, DiskSz: *disk, DeleteAll: *delAll, Unstable: i%3 != 2,
+				Profile: profs[i%len(profs)], Avoid: avoidSet(*avoid), DumpEach: *dumpEach, Restarts: true, SnapEach: *snapEach,
+				Snap: func(s *drv.Srv, t *drv.Trace, who string) { t.Emit(drv.TakeSnap(s, who, true)) }}
 			if err := drv.RunSeq(cfg, t, i); err != nil {
 				fmt.Fprintln(os.Stderr, "segment", i, "failed to start:", err)
 				os.Exit(2)
